@@ -30,7 +30,11 @@ impl ColumnIndex {
     }
 
     pub fn from_bytes(data: &[u8]) -> StorageResult<Self> {
-        // TODO(chi): error handling
+        if data.len() < INDEX_FOOTER_SIZE {
+            return Err(TracedStorageError::decode(
+                "failed to decode column index: shorter than its footer",
+            ));
+        }
         let mut index_data = &data[..data.len() - INDEX_FOOTER_SIZE];
         let mut footer = &data[data.len() - INDEX_FOOTER_SIZE..];
         if footer.get_u32() != SECONDARY_INDEX_MAGIC {
@@ -44,10 +48,17 @@ impl ColumnIndex {
         let checksum = footer.get_u64();
         verify_checksum(checksum_type, index_data, checksum)?;
 
-        let mut indexes = Vec::with_capacity(length);
-        for _ in 0..length {
+        // The block count is not covered by the checksum: do not trust it for the allocation,
+        // decode what the (verified) index data holds and compare.
+        let mut indexes = Vec::with_capacity(length.min(index_data.len()));
+        while index_data.has_remaining() {
             let index = BlockIndex::decode_length_delimited(&mut index_data)?;
             indexes.push(index);
+        }
+        if indexes.len() != length {
+            return Err(TracedStorageError::decode(
+                "failed to decode column index: block count mismatch",
+            ));
         }
 
         Ok(Self {
